@@ -30,6 +30,40 @@ func init() { register(extractC09Dep) }
 
 func c09flat(s string) string { return strings.Join(strings.Fields(s), " ") }
 
+// round 4: the statements the dependency translator takes as NEUTRAL (no effect on what the frame model keeps: journal,
+// native store, gas handed back) are no longer only a trusted prefix list inside this file: every statement so classified
+// is printed into Gen/C09Dep.lean IN FULL (function, flattened source), together with the StateDB methods it calls and
+// whether it can return from the function — Props/C09.lean compares the list with the reviewed one and decides that the
+// StateDB methods reached are account bookkeeping only.
+type c09Neutral struct {
+	fn, src string
+	calls   []string // methods called on evm.StateDB / s (the StateDB itself) inside the statement
+	returns bool     // the statement contains a return
+}
+
+var c09NeutralStmts []c09Neutral
+
+func (c *ctxT) c09RecordNeutral(fn string, st ast.Node) {
+	n := c09Neutral{fn: fn, src: c09flat(c.src(st))}
+	seen := map[string]bool{}
+	ast.Inspect(st, func(x ast.Node) bool {
+		switch y := x.(type) {
+		case *ast.ReturnStmt:
+			n.returns = true
+		case *ast.CallExpr:
+			if se, ok := y.Fun.(*ast.SelectorExpr); ok {
+				recv := c09flat(c.src(se.X))
+				if (recv == "evm.StateDB" || recv == "s" || recv == "s.journal" || recv == "s.cacheMS") && !seen[se.Sel.Name] {
+					seen[se.Sel.Name] = true
+					n.calls = append(n.calls, se.Sel.Name)
+				}
+			}
+		}
+		return true
+	})
+	c09NeutralStmts = append(c09NeutralStmts, n)
+}
+
 func (c *ctxT) c09NAProg(fd *ast.FuncDecl) []string {
 	var steps []string
 	for _, st := range fd.Body.List {
@@ -42,6 +76,7 @@ func (c *ctxT) c09NAProg(fd *ast.FuncDecl) []string {
 			case strings.HasPrefix(src, "eventManager := sdk.NewEventManager()"), strings.HasPrefix(src, "events := eventManager.Events()"),
 				strings.HasPrefix(src, "s.nativeEvents = s.nativeEvents.AppendEvents(events)"):
 				steps = append(steps, ".events "+leanStr(src))
+				c.c09RecordNeutral("ExecuteNativeAction", st)
 			default:
 				steps = append(steps, ".unknown "+leanStr(src))
 			}
@@ -73,6 +108,7 @@ func (c *ctxT) c09NAProg(fd *ast.FuncDecl) []string {
 				steps = append(steps, ".journal")
 			case strings.HasPrefix(src, "s.emitNativeEvents("):
 				steps = append(steps, ".events "+leanStr(src))
+				c.c09RecordNeutral("ExecuteNativeAction", st)
 			case strings.HasPrefix(src, "s.revertNativeStateToSnapshot(snapshot)"):
 				steps = append(steps, ".restore")
 			default:
@@ -133,6 +169,7 @@ func (c *ctxT) c09CallProg(fd *ast.FuncDecl) []string {
 				}
 				if neutral {
 					steps = append(steps, ".neutral "+leanStr(firstWords(src, 6)))
+					c.c09RecordNeutral(fd.Name.Name, st)
 				} else {
 					steps = append(steps, ".unknown "+leanStr(src))
 				}
@@ -143,6 +180,7 @@ func (c *ctxT) c09CallProg(fd *ast.FuncDecl) []string {
 				steps = append(steps, ".snapshot")
 			case strings.HasPrefix(src, "p, isPrecompile := evm.Precompile(addr)"), strings.HasPrefix(src, "debug := "):
 				steps = append(steps, ".neutral "+leanStr(firstWords(src, 6)))
+				c.c09RecordNeutral(fd.Name.Name, st)
 			default:
 				steps = append(steps, ".unknown "+leanStr(src))
 			}
@@ -152,6 +190,7 @@ func (c *ctxT) c09CallProg(fd *ast.FuncDecl) []string {
 				steps = append(steps, ".transfer")
 			case src == "evm.StateDB.AddBalance(addr, big0)":
 				steps = append(steps, ".neutral "+leanStr(src))
+				c.c09RecordNeutral(fd.Name.Name, st)
 			default:
 				steps = append(steps, ".unknown "+leanStr(src))
 			}
@@ -163,6 +202,7 @@ func (c *ctxT) c09CallProg(fd *ast.FuncDecl) []string {
 			}
 		case *ast.DeclStmt:
 			steps = append(steps, ".neutral "+leanStr(firstWords(src, 6)))
+			c.c09RecordNeutral(fd.Name.Name, st)
 		default:
 			steps = append(steps, ".unknown "+leanStr(src))
 		}
@@ -219,6 +259,7 @@ func (c *ctxT) c09CreateProg(fd *ast.FuncDecl) []string {
 			}
 			if neutral {
 				steps = append(steps, ".neutral "+leanStr(firstWords(src, 6)))
+				c.c09RecordNeutral("create", st)
 			} else {
 				steps = append(steps, ".unknown "+leanStr(src))
 			}
@@ -236,6 +277,7 @@ func firstWords(s string, n int) string {
 }
 
 func extractC09Dep(c *ctxT) {
+	c09NeutralStmts = nil
 	var sb strings.Builder
 	sb.WriteString("namespace FxVerif.Gen.C09Dep\n\n")
 	sb.WriteString(`/-- statements of the ethermint fork's (*StateDB).ExecuteNativeAction -/
@@ -363,6 +405,15 @@ inductive CStep
 	}
 	sb.WriteString("/-- single facts about the StateDB / journal / runPrecompiledContract sources -/\n")
 	sb.WriteString("def stateDBFacts : List (String × String) := [\n  " + strings.Join(fs, ",\n  ") + "]\n\n")
+	sb.WriteString("/-- every statement of the dependency functions above that the translator took as NEUTRAL, in full: function, flattened\nsource, StateDB methods called inside it, whether it contains a return -/\n")
+	var ns []string
+	var nj [][]string
+	for _, n := range c09NeutralStmts {
+		ns = append(ns, "("+leanStr(n.fn)+", "+leanStr(n.src)+", "+leanStrs(n.calls)+", "+leanBool(n.returns)+")")
+		nj = append(nj, []string{n.fn, n.src, strings.Join(n.calls, ","), fmt.Sprint(n.returns)})
+	}
+	sb.WriteString("def neutralStmts : List (String × String × List String × Bool) := [\n  " + strings.Join(ns, ",\n  ") + "]\n\n")
+	c.facts["C09.dep.neutralStmts"] = nj
 	sb.WriteString("end FxVerif.Gen.C09Dep\n")
 	c.write("C09Dep.lean", sb.String())
 	c.facts["C09.dep.nativeActionProg"] = na
